@@ -33,6 +33,9 @@ def main():
             sh(["git", "worktree", "remove", "--force", scratch], cwd="/repo")
 
 def main2():
+    unknown = [a for a in sys.argv[1:] if a.startswith("--") and a not in ("--scratch", "--tier")]
+    if unknown:
+        print(__doc__); return 2
     args = [a for a in sys.argv[1:] if not a.startswith("--")]
     tier = "quick"
     if "--tier" in sys.argv:
